@@ -1,6 +1,268 @@
-//! C19 reader-thread scenario (runs under Miri); built below.
+//! C19, schedule dimension: several real threads run seeded scripts of `&self` operations on one
+//! shared `&LruCache` **under Miri**, whose scheduler is driven by `-Zmiri-seed` (one seed = one
+//! repeatable interleaving) and whose data-race detector reports any non-atomic write that is
+//! concurrent with another thread's access — including write-then-restore patterns that a
+//! before/after comparison cannot see.
+//!
+//! `lrusim threads <seed> <nthreads> <ops>` is the program that runs under Miri;
+//! `miri_phase` (native, called by the coordinator) fans out `cargo +nightly miri run` processes.
 
-pub fn replay(_v: &serde_json::Value, _path: &str) -> i32 {
-    eprintln!("harness error: thread scenario replays run through ./check --replay under Miri");
-    2
+use crate::coord::{replay_dir, root_dir};
+use crate::prng::{derive, Rng};
+use crate::stubs::*;
+use serde_json::json;
+use std::process::Command;
+
+fn build_cache(seed: u64) -> Cache {
+    let mut rng = Rng::new(seed);
+    let mode = match rng.below(5) {
+        0 => HashMode::Const,
+        1 => HashMode::Ident,
+        2 => HashMode::Mod(2),
+        _ => HashMode::Good,
+    };
+    let hb = SimHashBuilder::new(mode, rng.next_u64());
+    let limit = if rng.bool() { usize::MAX } else { 12 * (entry_overhead() + 8) };
+    let mut c = if rng.bool() { Cache::with_hasher(limit, hb) } else { Cache::with_capacity_and_hasher(limit, rng.below(20) as usize, hb) };
+    let n = 10 + rng.below(30);
+    for _ in 0..n {
+        let k = rng.below(16) as u32;
+        match rng.below(12) {
+            0..=5 => {
+                let _ = c.insert(SimKey::new(k, 0), SimVal::new(rng.below(9) as usize));
+            }
+            6 => {
+                c.remove(&KeyId(k));
+            }
+            7 => {
+                c.get(&KeyId(k));
+            }
+            8 => {
+                let h = rng.below(9) as usize;
+                let _ = c.mutate(&KeyId(k), |v| v.heap = h);
+            }
+            9 => c.reserve(rng.below(10) as usize),
+            10 => c.shrink_to_fit(),
+            _ => {
+                c.touch(&KeyId(k));
+            }
+        }
+    }
+    c
+}
+
+fn reader(c: &Cache, seed: u64, tid: u64, ops: usize) -> u64 {
+    let mut rng = Rng::new(derive(seed, 1900 + tid, 0));
+    let mut acc = 0u64;
+    let mut probe = SimKey::new(0, 0);
+    for _ in 0..ops {
+        let k = rng.below(18) as u32;
+        probe.id = KeyId(k);
+        match rng.below(14) {
+            0 => acc += c.peek(&KeyId(k)).map(|v| v.heap as u64).unwrap_or(7),
+            1 => acc += c.peek(&probe).map(|v| v.heap as u64).unwrap_or(7),
+            2 => acc += c.peek_entry(&KeyId(k)).map(|(k, _)| k.id.0 as u64).unwrap_or(3),
+            3 => acc += c.contains(&KeyId(k)) as u64,
+            4 => acc += c.contains(&probe) as u64,
+            5 => acc += c.peek_lru().map(|(k, _)| k.id.0 as u64).unwrap_or(1),
+            6 => acc += c.peek_mru().map(|(k, _)| k.id.0 as u64).unwrap_or(1),
+            7 => acc += (c.len() + c.current_size() % 97 + c.capacity() + c.is_empty() as usize + (c.max_size() % 5)) as u64 + c.hasher().salt % 3,
+            8 => acc += c.iter().map(|(k, v)| k.id.0 as u64 + v.heap as u64).sum::<u64>(),
+            9 => acc += c.iter().rev().map(|(k, _)| k.id.0 as u64).sum::<u64>(),
+            10 => {
+                let mut it = c.keys();
+                let mut front = true;
+                loop {
+                    let x = if front { it.next() } else { it.next_back() };
+                    match x {
+                        Some(k) => acc += k.id.0 as u64,
+                        None => break,
+                    }
+                    front = !front;
+                }
+            }
+            11 => acc += c.values().map(|v| v.heap as u64).sum::<u64>(),
+            12 => acc += format!("{:?}", c).len() as u64,
+            _ => {
+                let cl = c.clone();
+                acc += cl.len() as u64;
+                drop(cl);
+            }
+        }
+    }
+    drop(probe);
+    acc
+}
+
+/// The program that runs under Miri.
+pub fn threads_main(args: &[String]) -> i32 {
+    let seed: u64 = args.first().and_then(|s| s.parse().ok()).unwrap_or(1);
+    let nthreads: u64 = args.get(1).and_then(|s| s.parse().ok()).unwrap_or(3);
+    let ops: usize = args.get(2).and_then(|s| s.parse().ok()).unwrap_or(12);
+    ctx_disable();
+    let cache = build_cache(seed);
+    let before = cache.verif_structure();
+    let c = &cache;
+    let mut total = 0u64;
+    std::thread::scope(|s| {
+        let hs: Vec<_> = (0..nthreads).map(|t| s.spawn(move || reader(c, seed, t, ops))).collect();
+        for h in hs {
+            total = total.wrapping_add(h.join().unwrap_or(0));
+        }
+    });
+    let after = cache.verif_structure();
+    if before != after {
+        println!("THREADS-STRUCTURE-CHANGED seed={}", seed);
+        return 1;
+    }
+    println!("THREADS-OK seed={} len={} acc={}", seed, cache.len(), total);
+    0
+}
+
+pub struct MiriOutcome {
+    pub schedules: u64,
+    pub programs: u64,
+    pub violations: Vec<String>,
+    pub error: Option<String>,
+}
+
+fn miri_cmd(seed: u64, nthreads: u64, ops: u64, flags: &str) -> Command {
+    let mut cmd = Command::new("cargo");
+    cmd.current_dir(root_dir().join("sim"))
+        .env("MIRIFLAGS", flags)
+        .env("CARGO_NET_OFFLINE", "true")
+        .env_remove("RUSTFLAGS")
+        .args(["+nightly", "miri", "run", "--offline", "-q", "--", "threads", &seed.to_string(), &nthreads.to_string(), &ops.to_string()]);
+    cmd
+}
+
+const BASE_FLAGS: &str = "-Zmiri-disable-stacked-borrows -Zmiri-ignore-leaks -Zmiri-preemption-rate=0.2";
+
+/// Runs `programs` seeded reader-thread programs, each under `seeds_per` Miri scheduler seeds.
+pub fn miri_phase(verif_seed: u64, programs: u64, seeds_per: u64, nthreads: u64, ops: u64, parallel: usize) -> MiriOutcome {
+    let mut out = MiriOutcome { schedules: 0, programs: 0, violations: Vec::new(), error: None };
+    let mut next = 0u64;
+    let mut running: Vec<(u64, std::process::Child, std::path::PathBuf)> = Vec::new();
+    let tmp = root_dir().join("sim").join("target").join("tmp");
+    let _ = std::fs::create_dir_all(&tmp);
+    // one warm-up invocation so that parallel ones do not race on the build
+    {
+        let mut cmd = miri_cmd(derive(verif_seed, 1900, 0), 1, 1, BASE_FLAGS);
+        match cmd.output() {
+            Ok(o) if o.status.success() => {}
+            Ok(o) => {
+                out.error = Some(format!("miri warm-up failed: {}", String::from_utf8_lossy(&o.stderr).lines().rev().take(15).collect::<Vec<_>>().join(" | ")));
+                return out;
+            }
+            Err(e) => {
+                out.error = Some(format!("cannot run cargo miri: {}", e));
+                return out;
+            }
+        }
+    }
+    loop {
+        while running.len() < parallel && next < programs {
+            let pseed = derive(verif_seed, 1900, next + 1);
+            let flags = format!("{} -Zmiri-many-seeds=0..{}", BASE_FLAGS, seeds_per);
+            let errp = tmp.join(format!("miri-{}-{}.err", std::process::id(), next));
+            let errf = match std::fs::File::create(&errp) {
+                Ok(f) => f,
+                Err(e) => {
+                    out.error = Some(format!("cannot create {}: {}", errp.display(), e));
+                    return out;
+                }
+            };
+            let mut cmd = miri_cmd(pseed, nthreads, ops, &flags);
+            cmd.stdout(std::process::Stdio::null()).stderr(errf);
+            match cmd.spawn() {
+                Ok(ch) => running.push((pseed, ch, errp)),
+                Err(e) => {
+                    out.error = Some(format!("cannot spawn cargo miri: {}", e));
+                    return out;
+                }
+            }
+            next += 1;
+        }
+        if running.is_empty() {
+            break;
+        }
+        let mut i = 0;
+        while i < running.len() {
+            match running[i].1.try_wait() {
+                Ok(Some(st)) => {
+                    let (pseed, _, errp) = running.remove(i);
+                    let err = std::fs::read_to_string(&errp).unwrap_or_default();
+                    let _ = std::fs::remove_file(&errp);
+                    out.programs += 1;
+                    out.schedules += seeds_per;
+                    if !st.success() {
+                        if err.contains("Data race detected") || err.contains("Undefined Behavior") {
+                            // find the failing miri seed by re-running seeds one at a time
+                            let mut found = None;
+                            for ms in 0..seeds_per {
+                                let flags = format!("{} -Zmiri-seed={}", BASE_FLAGS, ms);
+                                if let Ok(o) = miri_cmd(pseed, nthreads, ops, &flags).output() {
+                                    let e2 = String::from_utf8_lossy(&o.stderr).to_string();
+                                    if !o.status.success() && (e2.contains("Data race detected") || e2.contains("Undefined Behavior")) {
+                                        found = Some((ms, e2));
+                                        break;
+                                    }
+                                }
+                            }
+                            let (ms, text) = found.unwrap_or((0, err.clone()));
+                            let what = text.lines().find(|l| l.contains("Data race detected") || l.contains("Undefined Behavior")).unwrap_or("undefined behaviour").trim().to_string();
+                            let class = if what.contains("Data race") { "data-race" } else { "miri-ub" };
+                            let path = replay_dir().join(format!("C19-{}-threads-{}.json", verif_seed, pseed));
+                            let v = json!({"property": "C19", "mode": "threads", "violation": class, "program_seed": pseed, "miri_seed": ms, "nthreads": nthreads, "ops": ops, "message": what});
+                            let _ = std::fs::write(&path, serde_json::to_string_pretty(&v).unwrap());
+                            out.violations.push(format!("{}|{}|{}", class, what, path.display()));
+                        } else if err.contains("THREADS-STRUCTURE-CHANGED") {
+                            out.violations.push(format!("structure-changed|the cache's internal structure differs after the reader threads finished|program seed {}", pseed));
+                        } else {
+                            out.error = Some(format!("miri run failed for program seed {}: {}", pseed, err.lines().rev().take(12).collect::<Vec<_>>().join(" | ")));
+                            return out;
+                        }
+                    }
+                }
+                Ok(None) => i += 1,
+                Err(e) => {
+                    out.error = Some(format!("wait failed: {}", e));
+                    return out;
+                }
+            }
+        }
+        std::thread::sleep(std::time::Duration::from_millis(20));
+    }
+    out
+}
+
+pub fn replay(v: &serde_json::Value, path: &str) -> i32 {
+    let pseed = v["program_seed"].as_u64().unwrap_or(0);
+    let ms = v["miri_seed"].as_u64().unwrap_or(0);
+    let nthreads = v["nthreads"].as_u64().unwrap_or(3);
+    let ops = v["ops"].as_u64().unwrap_or(12);
+    println!("replaying {} (property C19, reader threads under Miri: program seed {}, miri seed {}, {} threads x {} ops)", path, pseed, ms, nthreads, ops);
+    let flags = format!("{} -Zmiri-seed={}", BASE_FLAGS, ms);
+    match miri_cmd(pseed, nthreads, ops, &flags).output() {
+        Ok(o) => {
+            let e = String::from_utf8_lossy(&o.stderr).to_string();
+            if !o.status.success() && (e.contains("Data race detected") || e.contains("Undefined Behavior")) {
+                for l in e.lines().filter(|l| l.contains("Data race") || l.contains("Undefined Behavior")).take(2) {
+                    println!("  {}", l.trim());
+                }
+                println!("VIOLATION property=C19 replay={}", path);
+                1
+            } else if o.status.success() {
+                println!("NOT REPRODUCED: Miri finished the schedule without reporting a data race");
+                0
+            } else {
+                eprintln!("harness error: miri failed: {}", e.lines().rev().take(10).collect::<Vec<_>>().join(" | "));
+                2
+            }
+        }
+        Err(e) => {
+            eprintln!("harness error: cannot run cargo miri: {}", e);
+            2
+        }
+    }
 }
